@@ -11,6 +11,7 @@ import BufrModel.Lemmas.CoderElemSrc
 import BufrModel.Lemmas.CoderWalkSrc
 import BufrModel.Lemmas.CoderCompositeSrc
 import BufrModel.Lemmas.CoderCapstoneSrc
+import BufrModel.Lemmas.CoderLeafSrc
 import BufrModel.Props.C14Src
 set_option linter.unusedSimpArgs false
 namespace Bufr
@@ -300,22 +301,50 @@ example : ∃ (cb : PyGen.coder.Coder.process_sequence_descriptor.Callbacks PyGe
     correspond, and leaf methods that correspond, the regenerated walk and `walkList P (ms.map descOf)` return
     corresponding states or fail with the same error class.  In particular the fuel suffices (no `outOfFuel`): the
     recursion of `process_members` through the composite descriptors terminates. -/
-theorem C01_src_process_members {V B : Type} (φ : PyGen.coder.Descr → Elem)
-    (A : PyData PyGen.coder.Descr V → B → StData → Prop) (L : LeafCb V B) (P : Prims) (hL : LeafCorr φ A L P)
-    (fuel : Nat) (ms : List PyGen.coder.Descr) (hg : GoodDs ms) (hd : depthsOf ms < fuel)
+theorem C01_src_process_members {V B : Type} (G : PyGen.coder.Descr → Prop) (φ : PyGen.coder.Descr → Elem)
+    (A : PyData PyGen.coder.Descr V → B → StData → Prop) (L : LeafCb V B) (P : Prims) (hL : LeafCorr G φ A L P)
+    (fuel : Nat) (ms : List PyGen.coder.Descr) (hg : GoodDs G ms) (hd : depthsOf ms < fuel)
     (ps : PyGen.coder.CoderState.Self PyGen.coder.Descr V) (b : B) (s : St) (h : AbsSt φ A ps b s) :
     Corr φ A (pyWalk L fuel ps b ms) (walkList P (ms.map descOf) s) :=
-  walk_core φ A L P hL fuel ms hg hd ps b s h
+  walk_core G φ A L P hL fuel ms hg hd ps b s h
+
+/-- **… with the generated element step, operator dispatch and bitmap-definition machine plugged in** (`genLeaf`,
+    `Lemmas/CoderLeafSrc.lean`): the walk in which `process_members`, the three composite methods,
+    `process_element_descriptor` (with the generated `add_bitmap_link`), `process_operator_descriptor` (with the generated
+    `CoderState` methods) and `process_bitmap_definition` are ALL the functions regenerated from `coder.py` equals the model's
+    `walkList`, for every descriptor tree whose nodes have non-negative ids and widths (`LeafG`), given only that the
+    ABSTRACT methods of `Coder` (`process_numeric`, `process_string`, `process_codeflag`, `process_constant`,
+    `process_numeric_of_new_refval`, `define_bitmap`, `get_value_for_delayed_replication_factor`) and the four not yet
+    translated ones (`process_associated_field`, `process_marker_operator_descriptor`, `process_define_new_refval`,
+    `process_skipped_local_descriptor`) correspond to the primitives / steps of the model. -/
+theorem C01_src_process_members_generated {V B : Type} (φ : PyGen.coder.Descr → Elem)
+    (A : PyData PyGen.coder.Descr V → B → StData → Prop) (hA : LinkClosed A) (P : Prims)
+    (cbE : PyGen.coder.Coder.process_element_descriptor.Callbacks PyGen.coder.Descr V B)
+    (hE : ∀ d, CbCorrE φ A cbE P (.plain (elemOf d)) d)
+    (cbO : PyGen.coder.Coder.process_operator_descriptor.Callbacks PyGen.coder.Descr V B) (hO : CbCorr φ A cbO P)
+    (cbB : PyGen.coder.Coder.process_bitmap_definition.Callbacks PyGen.coder.Descr V B) (hB : DefineCorr φ A cbB P)
+    (defRef skip : PyStep V B) (getv : PyGen.coder.CoderState.Self PyGen.coder.Descr V → Except Py.Exc Int)
+    (hdef : ∀ ps b s m e, AbsSt φ A ps b s → descOf m = .elem e →
+      Corr φ A (defRef ps b m) (if e.kind = .string then .error .lib else P.newRefval e s.regs.nbitsNewRefval s))
+    (hskip : ∀ ps b s m, AbsSt φ A ps b s →
+      Corr φ A (skip ps b m)
+        (do let s' ← P.codeflag (.skipped (descOf m).id s.regs.nbitsSkipped) s.regs.nbitsSkipped s
+            pure (s'.setRegs fun r => { r with nbitsSkipped := 0 })))
+    (hval : ∀ ps b s, AbsSt φ A ps b s → ValCorr (getv ps) (P.factorValue s >>= factorCount))
+    (fuel : Nat) (ms : List PyGen.coder.Descr) (hg : GoodDs LeafG ms) (hd : depthsOf ms < fuel)
+    (ps : PyGen.coder.CoderState.Self PyGen.coder.Descr V) (b : B) (s : St) (h : AbsSt φ A ps b s) :
+    Corr φ A (pyWalk (genLeaf cbE cbO cbB defRef skip getv) fuel ps b ms) (walkList P (ms.map descOf) s) :=
+  walk_core LeafG φ A _ P (genLeaf_corr φ A hA P cbE hE cbO hO cbB hB defRef skip getv hdef hskip hval) fuel ms hg hd ps b s h
 
 /-- the hypotheses on the tree are satisfiable by a nested template: a sequence holding a fixed replication of an
     element and an operator, a delayed replication with its factor -/
-example : GoodDs [.SequenceDescriptor 301001 [.FixedReplicationDescriptor 101002 [.ElementDescriptor 12101 "K".toList 2 0 16],
+example : GoodDs LeafG [.SequenceDescriptor 301001 [.FixedReplicationDescriptor 101002 [.ElementDescriptor 12101 "K".toList 2 0 16],
       .OperatorDescriptor 201130, .DelayedReplicationDescriptor 101000 [.ElementDescriptor 1001 "NUMERIC".toList 0 0 7]
         (.ElementDescriptor 31001 "NUMERIC".toList 0 0 8)]] ∧
     depthsOf [.SequenceDescriptor 301001 [.FixedReplicationDescriptor 101002 [.ElementDescriptor 12101 "K".toList 2 0 16],
       .OperatorDescriptor 201130, .DelayedReplicationDescriptor 101000 [.ElementDescriptor 1001 "NUMERIC".toList 0 0 7]
         (.ElementDescriptor 31001 "NUMERIC".toList 0 0 8)]] < 3 := by
   refine ⟨?_, by decide⟩
-  simp [GoodDs, GoodD, PyGen.coder.Descr.id]
+  simp [GoodDs, GoodD, LeafG, PyGen.coder.Descr.id]
 
 end Bufr
